@@ -9,7 +9,7 @@
     mread <g> <c> <count|-> <noack> <nogroup|wrongtype|badid>   (XREADGROUP STREAMS <this> <failing second stream>)
     names 100 / 101 = the two distinct non-UTF-8 names g\xff / g\xfe (c\xff / c\xfe); 199 = their lossy image
     tnow <ms> | pidle <g> <id> | claim <g> <c> <0|huge|ms> <force 0|1> <ids> | autoclaim <g> <c> <0|huge> <start> <count>
-    pending <g> | prange <g> <start|-> <end|+> <count> <c|->
+    pending <g> | prange <g> <start> <end> <count> <c|->      (bounds: - + ms-seq ms, optional ( prefix, anything else = junk)
   answered by the `Code` model as  `<reply> ;; S <stream ids> ;; G <g> <last> <byid> <byc> <cons> <total> <min> <max> ;; …`
   (byte-identical to harness/src/bin/impl_grp.rs on the real code), and
     judge <op words> ;; S <ids before> ;; <G-dump before | none> ;; <reply> ;; <G-dump after | none>
@@ -57,7 +57,7 @@ def showGroup (name : Name) (g : Group) : String :=
 
 def showStWith (reply : String) (s : St) : String :=
   let gs := (sortBy (·.1) s.groups).map fun p => " ;; " ++ showGroup p.1 p.2
-  s!"{reply} ;; S {showIds s.stream}" ++ String.join gs
+  s!"{reply} ;; S {if s.keyExists then showIds s.stream else "~"}" ++ String.join gs
 
 def showSt (r : Reply) (s : St) : String := showStWith (showReply r) s
 
@@ -121,27 +121,47 @@ def parseGroup : List String → Option (Name × Group)
 /-- eligibility of the XCLAIM idle test: min-idle 0 always passes, a huge one never; FORCE bypasses it -/
 def eligOf (idle : Nat) (force : Bool) : Bool := idle == 0 || force
 
-/-- the group operations (everything except create/destroy and the stream operations) -/
-def parseGOp (s : St) (frmOf : Id → Option Id) : List String → Option (Name × GOp)
+/-- a bound token of the extended XPENDING: optional `(`, then `-`, `+`, `ms-seq`, `ms`, or anything else (junk) -/
+def parseBound (tok : String) : Bool × Code.Bound :=
+  let excl := tok.startsWith "("
+  let t := if excl then (tok.drop 1).toString else tok
+  (excl, if t == "-" then .minus else if t == "+" then .plus
+         else match parseId t with
+           | some i => .full i
+           | none => match num t with
+             | some n => .ms n
+             | none => .junk)
+
+/-- `cntOf`, `frmOf`, `bnd`: how COUNT, an explicit id and an XPENDING bound are read — by the handler of the tree
+    (`Code.countFrom`, `Code.explicitFrom`, `Code.boundCode`) or as the property prescribes.  `some (g, none)`: the
+    command is refused (invalid bound). -/
+def parseGOp (s : St) (frmOf : Id → Option Id) (cntOf : Nat → Option Nat)
+    (bnd : Bool → Bool → Code.Bound → Option (Option Id)) : List String → Option (Name × Option GOp)
   | ["setid", g, id] => do
     let g ← num g
     let id ← if id == "$" then some s.dollar else parseId id
-    pure (g, .setid id)
-  | ["createc", g, c] => do pure ((← num g), .createc (← num c))
-  | ["delc", g, c] => do pure ((← num g), .delc (← num c))
+    pure (g, some (.setid id))
+  | ["createc", g, c] => do pure ((← num g), some (.createc (← num c)))
+  | ["delc", g, c] => do pure ((← num g), some (.delc (← num c)))
   | ["read", g, c, frm, count, noack] => do
     let frm ← if frm == ">" then some none else (parseId frm).map frmOf
-    let count ← if count == "-" then some none else (num count).map some
-    pure ((← num g), .read (← num c) frm count (← parseBool noack))
-  | ["ack", g, ids] => do pure ((← num g), .ack (← parseIds ids))
+    let count ← if count == "-" then some none else (num count).map cntOf
+    pure ((← num g), some (.read (← num c) frm count (← parseBool noack)))
+  | ["ack", g, ids] => do pure ((← num g), some (.ack (← parseIds ids)))
   | ["claim", g, c, idle, force, ids] => do
-    pure ((← num g), .claim (← num c) (eligOf (← parseIdle idle) (← parseBool force)) (← parseIds ids))
+    pure ((← num g), some (.claim (← num c) (eligOf (← parseIdle idle) (← parseBool force)) (← parseIds ids)))
   | ["autoclaim", g, c, idle, start, count] => do
-    pure ((← num g), .autoclaim (← num c) (eligOf (← parseIdle idle) false) (← parseId start) (← num count))
-  | ["pending", g] => do pure ((← num g), .pending)
+    pure ((← num g), some (.autoclaim (← num c) (eligOf (← parseIdle idle) false) (← parseId start) (← num count)))
+  | ["pending", g] => do pure ((← num g), some .pending)
   | ["prange", g, s', e, count, c] => do
     let c ← if c == "-" then some none else (num c).map some
-    pure ((← num g), .prange (← parseOptId "-" s') (← parseOptId "+" e) (← num count) c)
+    let (xs, bs) := parseBound s'
+    let (xe, be) := parseBound e
+    let g ← num g
+    let count ← num count
+    match bnd true xs bs, bnd false xe be with
+    | some lo, some hi => pure (g, some (.prange lo hi count c))
+    | _, _ => pure (g, none)
   | _ => none
 
 /-! ### the oracle: Spec step on the abstraction of the implementation's dumps -/
@@ -154,6 +174,7 @@ def normReply : Reply → Reply
 def parseReplyFor (op : GOp) (ws : List String) : Option Reply :=
   match op, ws with
   | _, ["panic"] => some .panic
+  | _, ["refused"] => some .refused
   | _, ["nogroup"] => some .nogroup
   | .setid _, ["ok"] => some .ok
   | .createc _, [n] => (num n).map .num
@@ -225,11 +246,28 @@ def judge (s0 : St) (secs : List (List String)) : String :=
           | _, _, _ => "fail reply"
         | _ =>
           -- the oracle reads an explicit id as what it says (history after it), whatever the handler makes of it
-          match parseGOp s some opw, pre, post with
-          | some (_, op), some (_, g), some (_, g') =>
+          match opw, pre, post with
+          | ["claim", _, c, idle, force, ids], some (_, g), some (_, g') =>
+            -- XCLAIM as prescribed: the idle threshold decides for pending ids (FORCE does not replace it), FORCE
+            -- creates the missing rows of existing entries
+            match num c, parseIdle idle, parseBool force, parseIds ids, parseIds (String.intercalate " " replyw) with
+            | some c, some idle, some force, some ids, some got =>
+              let r := Spec.claimF stream (Grp.abs g) c (idle == 0) force ids
+              let a := if (Grp.abs g').pending = r.1.pending && (Grp.abs g').cursor = r.1.cursor then [] else ["pending-set"]
+              let b := if got = r.2.filter (fun x => stream.contains x) then [] else ["reply"]
+              let cc := if agreeB g && !agreeB g' then ["agree:" ++ firstBadClause g'] else []
+              (match a ++ b ++ cc with | [] => "ok" | l => "fail " ++ String.intercalate " " l)
+            | _, _, _, _, _ => "bad-op"
+          | _, _, _ =>
+          match parseGOp s some (fun n => if n = 0 then none else some n)
+                  (fun isStart excl b => (Code.boundSpec isStart excl b).map some) opw, pre, post with
+          | some (_, some op), some (_, g), some (_, g') =>
             match parseReplyFor op replyw with
             | some reply => judgeG stream g op reply g'
             | none => "bad-op"
+          | some (_, none), some (_, g), some (_, g') =>
+            -- an invalid bound: the command is refused and changes nothing
+            if replyw != ["refused"] then "fail reply" else if g = g' then "ok" else "fail state"
           | some _, _, _ => "bad-op"
           | none, _, _ => "bad-op"
       | _, _ => "bad-op"
@@ -277,12 +315,18 @@ def step0 (d : DState) (ws : List String) : DState × String :=
   match ws with
   | "quirks" :: flags =>
     match flags.mapM parseBool with
-    | some [a, b, c, e, f, g, h, i, j] => ({ d with q := ⟨a, b, c, e, f, g, h, i, j⟩ }, "ok")
+    | some [a, b, c, e, f, g, h, i, j, k, l, m, n] => ({ d with q := ⟨a, b, c, e, f, g, h, i, j, k, l, m, n⟩ }, "ok")
     | _ => (d, "bad-op")
   | ["bad", kind, g] =>
     -- a malformed / refused administration command (handler level): it is refused and changes nothing
     match num g with
-    | some _ => if badKinds.contains kind then (d, showStWith "refused" d.s) else (d, "bad-op")
+    | some _ =>
+      if !badKinds.contains kind then (d, "bad-op")
+      else if kind == "create-badid" then
+        -- XGROUP CREATE key g notanid MKSTREAM: refused; the pinned handler has created the key by then
+        let s' := { d.s with keyExists := Code.refusedCreateLeavesKey d.q d.s.keyExists }
+        ({ d with s := s' }, showStWith "refused" s')
+      else (d, showStWith "refused" d.s)
     | none => (d, "bad-op")
   | ["tnow", ms] =>
     match num ms with
@@ -315,7 +359,7 @@ def step0 (d : DState) (ws : List String) : DState × String :=
       match alGet g d.s.groups with
       | none => (d, showSt .nogroup d.s)
       | some grp =>
-        let r := Code.claimT (grp, timesOf d g) c d.clock minIdle force ids
+        let r := Code.claimT d.q d.s.stream (grp, timesOf d g) c d.clock minIdle force ids
         let s' := { d.s with groups := alSet g r.1.1 d.s.groups }
         ({ d with s := s', times := alSet g r.1.2 d.times },
          showSt (.ids (r.2.filter (fun x => d.s.stream.contains x))) s')
@@ -333,7 +377,7 @@ def step0 (d : DState) (ws : List String) : DState × String :=
     | _, _ => (d, "bad-op")
   | ["mread", g, c, count, noack, kind] =>
     -- XREADGROUP over two streams whose second one fails
-    match num g, num c, (if count == "-" then some none else (num count).map some), parseBool noack,
+    match num g, num c, (if count == "-" then some none else (num count).map (Code.countFrom d.q)), parseBool noack,
           ["nogroup", "wrongtype", "badid"].contains kind with
     | some g, some c, some count, some noack, true =>
       match alGet g d.s.groups with
@@ -347,8 +391,11 @@ def step0 (d : DState) (ws : List String) : DState × String :=
         ({ d with s := s', times := times }, showSt r.2 s')
     | _, _, _, _, _ => (d, "bad-op")
   | _ =>
-    match parseGOp d.s (Code.explicitFrom d.q) ws with
-    | some (g, op) =>
+    match parseGOp d.s (Code.explicitFrom d.q) (Code.countFrom d.q) (Code.boundCode d.q) ws with
+    | some (g, none) =>
+      -- the handler looks the group up before it parses the bounds
+      (d, showSt (if (alGet g d.s.groups).isSome then .refused else .nogroup) d.s)
+    | some (g, some op) =>
       let r := St.gop d.q d.s g op
       -- deliveries into the PEL stamp the delivered rows with the clock
       let times := match op, r.2 with
